@@ -172,7 +172,7 @@ func discharge(obls []*Obligation, workDir string, tier string, jobs int) {
 			} else {
 				o.Secs += d1
 			}
-			if o.Short && tier != "thorough" {
+			if o.Short {
 				o.Status = "unknown"
 				o.Output = "not decided in the short stages (known finding: the long stages are skipped)"
 				finishObl(o, file)
